@@ -333,6 +333,27 @@ func c03Run(run *ev.Run) {
 	}
 	evals += hist
 	run.Extra["flows_with_earlier_life"] = hist
+	// cookie-name prefixes with characters browsers accept in cookie names but RFC 6265 tokens do not (the option is not
+	// validated, so every one of them is an accepted configuration)
+	var oddp int64
+	for _, prefix := range []string{"team/app", "app:prod", "ops@corp", "a(b)", "x,y", "q?", "sp ace", "Ünï", "a.b_c-d", strings.Repeat("p", 70)} {
+		for _, store := range []string{"memory", "redis"} {
+			for _, a := range []world.Answer{answers[0], answers[len(answers)-1]} {
+				c := c03Case{Answer: a, Spec: world.Spec{Store: store, Forward: true, Logout: true, CookiePrefix: prefix, Scopes: []string{"openid"}}, Target: targets[0], Tail: tail[:1]}
+				res, n := c03Flow(c)
+				oddp++
+				steps += int64(n)
+				if res != "" {
+					sig, msg, _ := strings.Cut(res, "\x00")
+					run.Violation("C03 "+sig+" odd-cookie-prefix", msg, c)
+				} else {
+					run.Class(fmt.Sprintf("odd-cookie-prefix|%q|store=%s", prefix, store))
+				}
+			}
+		}
+	}
+	evals += oddp
+	run.Extra["flows_with_odd_cookie_prefix"] = oddp
 	// server level: real loader + factory + Check + trigger rules (serial: one in-memory network per process)
 	var srv int64
 	srvAnswers := answers
